@@ -289,6 +289,7 @@ CARRIERS: List[Carrier] = [
     Carrier('del3', 'if t:\n    del a, b[0], c.d  # del\n', [('body', 0), ('body', 0)], 'targets', 'if t:\n    del {}\n', ['a', 'b[0]', 'c.d'], ['p', 'q.r']),
     Carrier('assign3', 'a = b = \\\n  c = v  # asg\n', L0, 'targets', '{} = v\n', ['a', 'b', 'c'], ['p', 'q.r'], sep=' = ', code_suffix=' ='),
     Carrier('global3', 'def f():\n    global a, b, \\\n        c  # g\n', [('body', 0), ('body', 0)], 'names', 'def f():\n    global {}\n', ['a', 'b', 'c'], ['p', 'q'], elem_ops=False),
+    Carrier('global5', 'def f():\n    global a, b, c, \\\n        d, e  # g\n', [('body', 0), ('body', 0)], 'names', 'def f():\n    global {}\n', ['a', 'b', 'c', 'd', 'e'], ['p', 'q'], elem_ops=False),
     Carrier('import3', 'import a, b.c as d, e  # imp\n', L0, 'names', 'import {}\n', ['a', 'b.c as d', 'e'], ['p', 'q.r as s']),
     Carrier('fromimp3', 'from m import (a,\n    b as c,  # c\n    d)\n', L0, 'names', 'from m import ({})\n', ['a', 'b as c', 'd'], ['p', 'q as s']),
     Carrier('boolop3', 'x = a and b \\\n    and c\n', V0, 'values', 'x = ({})\n', ['a', 'b', 'c'], ['p', 'q'], sep=' and ',
